@@ -616,8 +616,12 @@ class DictConverter(t.Generic[FromDataK, FromDataV], Converter[t.Mapping[FromDat
             def _v_into_data(v: t.Any) -> DataType:
                 return self.v_conv.into_data(v)
 
+        def _hashable(k: DataType) -> DataType:
+            # keys serialized to lists (e.g. frozenset keys) must stay usable as keys
+            return tuple(map(_hashable, k)) if isinstance(k, list) else k
+
         return {
-            _k_into_data(k): _v_into_data(v)
+            _hashable(_k_into_data(k)): _v_into_data(v)
             for (k, v) in t.cast(t.Mapping[FromDataK, FromDataV], val).items()
         }
 
